@@ -52,6 +52,27 @@ def session_grid_rules(idx: Index, res: Result, rule: str = "DERIVE"):
     ok = src(st["step"]) == src(st["starttime"])
     res.check(rule, "the session clock starts at the session start time", ok, bs.loc(), bs.qual, '"step": %s' % src(st["step"]),
               "the clock starts at %s, the session start time is %s" % (src(st["step"]), src(st["starttime"])), key=rule + "/begin_session/step")
+    # session settings (which may carry run specs) are applied to a scenario *before* its run specs are read into the session grid
+    bcfg = build_cfg(bs.node, bs.qual)
+
+    def reads_runspec(a_):
+        return a_ is not None and any(isinstance(x, ast.Attribute) and x.attr in ("starttime", "stoptime", "dt") and isinstance(x.value, ast.Name)
+                                      and "scenario" in x.value.id and isinstance(x.ctx, ast.Load) for x in ast.walk(a_))
+
+    def tr_order(node: Node, fact, label):
+        if node.kind == "iter" and label == "loop":
+            return [False]
+        a_ = node.ast.iter if node.kind == "iter" else node.ast
+        if node.kind in ("stmt", "test") and label != "exc" and reads_runspec(a_):
+            return [True]
+        return [fact]
+    oflow = Flow(bcfg, [False], tr_order)
+    late = [nd for nd in bcfg.nodes if nd.kind == "stmt" and nd.ast is not None and any(call_name(c) == "configure_settings" for c in iter_calls(nd.ast))
+            and True in oflow.at[nd.id]]
+    res.check(rule, "session settings are applied before the scenario's run specs are read", not late, bs.loc(late[0].ast) if late else bs.loc(), bs.qual,
+              late[0].text() if late else "configure_settings(...) ... scenario_object.starttime",
+              "begin_session reads a scenario's starttime/stoptime/dt into the session grid and only afterwards applies the session settings to it: run "
+              "specs given as session settings change the model but not the grid the session steps over", key=rule + "/begin_session/settings-after-grid")
     mx = [c for c in iter_calls(bs.node) if call_name(c) == "max" and any("starttime" in src(a) for a in c.args)]
     mn = [c for c in iter_calls(bs.node) if call_name(c) == "min" and any("stoptime" in src(a) for a in c.args)]
     res.check(rule, "start = max over scenarios, stop = min over scenarios", bool(mx) and bool(mn), bs.loc(), bs.qual,
@@ -75,6 +96,9 @@ def check_c09(idx: Index, tier: str, res: Result) -> None:
     # the batch run sweeps the model's own grid (start, stop, dt of the model the scenario carries) - the grid the session clock is derived from
     from .sddsl_templates import _sweep
     _sweep(idx, res)
+    # POST /run reports what the other channels report for the same settings: no value memoised under earlier settings survives
+    from .memo import run_resource_reset_rule
+    run_resource_reset_rule(idx, res, "PASSTHROUGH")
 
     from .memo import selected_scenarios_without
     bad = selected_scenarios_without(bs, "reset_scenario_cache")
